@@ -43,6 +43,10 @@ def scenarios(rng, n):
             sep = rng.choice([dict(sep="char", sepChar=[0x2192]), dict(sep="char", sepChar=[]), dict(sep="SFDigits1", sepChar=[]),
                               dict(sep="recipe", sepChar=[], sepRecipe=dict(len=2, allow=0, require=0, exclude=0, allowChars=rng.sample(CJK, 3), requireSets=[], excludeChars=[])),
                               dict(sep="recipe", sepChar=[], sepRecipe=dict(len=1, allow=4, require=4, exclude=4, allowChars=[], requireSets=[], excludeChars=[])),
+                              # a separator function next to a SeparatorChar (the function wins; nothing is said about either)
+                              dict(sep="recipe", sepChar=[0x21D2], sepRecipe=dict(len=3, allow=0, require=0, exclude=0, allowChars=rng.sample(CJK + GREEK, 4), requireSets=[], excludeChars=[])),
+                              dict(sep="custom0", sepChar=o("+"), sepRecipe=dict(len=2, allow=0, require=0, exclude=0, allowChars=rng.sample(CJK, 3), requireSets=[], excludeChars=[])),
+                              dict(sep="SFDigits2", sepChar=[0x2192, 0x2192]),
                               # a caller-written separator that is random but claims no entropy
                               dict(sep="custom0", sepChar=[], sepRecipe=dict(len=3, allow=0, require=0, exclude=0, allowChars=rng.sample(CJK + GREEK, 4), requireSets=[], excludeChars=[]))])
             wl = dict(words=[o(w) for w in words], nolist=0, len=rng.randint(1, 5), cap=rng.choice(wlfam.SCHEMES))
